@@ -39,6 +39,10 @@ type job struct {
 	Delim   string `json:"delim"`
 	Cwd     string `json:"cwd"`
 	Cleanup bool   `json:"cleanup"` // remove the output directory once it has been hashed
+	// AppendTo / AppendText: before this compile, append text to a source file (the content of a
+	// path changes between two compiles of one process)
+	AppendTo   string `json:"append_to"`
+	AppendText string `json:"append_text"`
 }
 
 type request struct {
@@ -211,6 +215,12 @@ func compileSeq(q request) response {
 	resp := response{}
 	home, _ := os.Getwd()
 	for _, j := range q.Jobs {
+		if j.AppendTo != "" {
+			if f, err := os.OpenFile(j.AppendTo, os.O_APPEND|os.O_WRONLY, 0o644); err == nil {
+				f.WriteString(j.AppendText)
+				f.Close()
+			}
+		}
 		if j.Cwd != "" {
 			if err := os.Chdir(j.Cwd); err != nil {
 				resp.Results = append(resp.Results, jobResult{Code: hx.CodeOther, Msg: err.Error()})
